@@ -243,6 +243,7 @@ static inline const vf_name *vf_names_abH_get(void) { return vf_names_abH_len(32
  * Every PAIR (level >= 1) and every TRIPLE (level >= 2) of small sibling subtrees under an object root (member names "" < "a" < "b"
  * or "a" < "b" < "c") and under an array root: what one sibling leaves behind in the per-level state meets every shape of the next
  * one - a slice of the documents with 4..9 value tokens that the plain enumeration (<= 3..5 tokens) does not reach.
+ * The pairs of the 16 smallest shapes are also delivered one level further down (4 wrapped forms).
  * Subtrees: 27 shapes with <= 3 value tokens over {int, string, {}, []} with inner names "" and "a" (pairs); the 16 shapes with <= 2
  * tokens (triples). Documents are delivered through g->cb exactly as vf_gen_run does (g->doc, g->index). */
 #define VF_NSIB 27
@@ -293,6 +294,30 @@ static inline void vf_sibling_run_ar(vf_gen *g, int arity_lo, int arity_hi)
                 g->cb(g, g->u);
                 g->index++;
             }
+        /* the pairs of the 16 smallest shapes once more, one level further down, with something after the wrapper where the root
+         * allows it: {"a":[X,Y]}, [{"":X,"a":Y}], {"a":{"":X,"a":Y},"b":1}, [[X,Y],2] (nesting of up to 4 levels) */
+        if (arity == 2)
+            for (int form = 3; form < 7; form++)
+                for (int combo = 0; combo < VF_NSIB_SMALL * VF_NSIB_SMALL && !g->stop; combo++) {
+                    vf_doc *d = &g->doc;
+                    bool objroot = form == 3 || form == 5, objwrap = form == 4 || form == 5;
+                    vf_b_reset(d);
+                    g->leafk = 0;
+                    g->root_kind = objroot ? VK_OBJ : VK_ARR;
+                    vf_b_open(d, g->root_kind);
+                    if (objroot) vf_b_name(d, "a", 1);
+                    vf_b_open(d, objwrap ? VK_OBJ : VK_ARR);
+                    if (objwrap) vf_b_name(d, "", 0);
+                    vf_sib_subtree(g, combo % VF_NSIB_SMALL);
+                    if (objwrap) vf_b_name(d, "a", 1);
+                    vf_sib_subtree(g, combo / VF_NSIB_SMALL);
+                    vf_b_close(d);
+                    if (form == 5) { vf_b_name(d, "b", 1); vf_emit_leaf(d, LC_INT8, g->leafk++); }
+                    if (form == 6) vf_emit_leaf(d, LC_INT8, g->leafk++);
+                    vf_b_close(d);
+                    g->cb(g, g->u);
+                    g->index++;
+                }
     }
 }
 
